@@ -982,8 +982,10 @@ func isinstance(obj py.Object, classOrTuple py.Object) (py.Bool, error) {
 		if classOrTuple.Type().ObjectType != py.TypeType {
 			return false, py.ExceptionNewf(py.TypeError, "isinstance() arg 2 must be a type or tuple of types")
 		}
+		// instances of user classes are *py.Type values too (see
+		// Type.Alloc): unlike a class they have no method resolution order
 		cls, ok := classOrTuple.(*py.Type)
-		if !ok {
+		if !ok || cls.Mro == nil {
 			return false, py.ExceptionNewf(py.TypeError, "isinstance() arg 2 must be a type or tuple of types")
 		}
 		return py.Bool(obj.Type().IsSubtype(cls)), nil
